@@ -27,12 +27,12 @@ def witnesses(tier, seed):
     # scalar element assignment
     for si, dims in enumerate([[7], [3, 4], [2, 3, 4], [2, 3, 2, 3]]):
         alli = list(itertools.product(*[range(-n, n) for n in dims]))
-        for idx in (alli if len(alli) <= 60 else rng.sample(alli, 60 if quick else 300)):
+        for idx in (alli if len(alli) <= 60 else rng.sample(alli, min(len(alli), 60 if quick else 300))):
             W.append(scalar_assign(T3[si % 3], dims, idx))
     # rank 1 dynamic destination, every operator and right-hand-side kind
     for N in ([4, 7, 8, 9] if quick else range(2, 13)):
         axes = seq_axes(N, max_step=3)
-        pick = axes if len(axes) <= 40 else rng.sample(axes, 40 if quick else 120)
+        pick = axes if len(axes) <= 40 else rng.sample(axes, min(len(axes), 40 if quick else 120))
         for k, ax in enumerate(pick):
             t = T3[(k + N) % 3]
             op = ALLOPS[k % 5]
